@@ -1,6 +1,7 @@
 package props
 
 import (
+	"bytes"
 	"encoding/base64"
 	"encoding/binary"
 	"encoding/hex"
@@ -58,6 +59,22 @@ func c14Small() [][]byte {
 	return out
 }
 
+// c14Deep: inputs whose nesting depth is their length. A megabyte of one container-opening tag (and of mixtures):
+// the readers call one another once per level, so the depth of the recursion, and the stack it needs, are set by
+// the input alone (§5 #42: 'fatal error: stack overflow', which no recover catches); also 300 000 instances nested
+// through a pointer field, an interface-list field and a list field of a registered class.
+func c14Deep() [][]byte {
+	var out [][]byte
+	for _, unit := range []string{"\x57", "\x79", "\x58\x91", "\x56\x00\x91", "H\x01k", "\x57\x79H\x91", "M\x00\x90"} {
+		out = append(out, bytes.Repeat([]byte(unit), (1<<20)/len(unit)))
+	}
+	for _, unit := range []string{"\x60", "\x60\x90", "\x60\x79"} {
+		cls := map[string]string{"\x60": "C\x05ENode\x91\x04next", "\x60\x90": "C\x07AnyList\x92\x01n\x01l", "\x60\x79": "C\x05SlPtr\x91\x01l"}[unit]
+		out = append(out, append([]byte(cls), bytes.Repeat([]byte(unit), 300000)...))
+	}
+	return out
+}
+
 func c14Fixed() [][]byte {
 	var out [][]byte
 	for _, s := range []string{
@@ -76,12 +93,12 @@ func c14Fixed() [][]byte {
 		"48910366656561a0036669655a", // H 1 fee ... Z (truncated variant)
 		"4d13636f6d2e63617563686f2e746573742e43617205636f6c6f720a617175616d6172696e655a",
 		"4300905a", "4f90", "5190", "51ff", "60", "6f", "4fc8ff", "7fffffffff", "58497fffffff", "56004990", "5500", "4d00", "4d90", "4300" + "497fffffff",
-		"71065b696e74333279" + "5191",                   // typed int list whose element is a list containing itself
-		"71055b74726565795191",                          // "[tree" (type Tree []Tree) holding a list that contains itself
-		"4d016a0161480173" + "51915a5a",                 // "j" (type JMap map[string]JMap) holding a map that contains itself
-		"43046e6f64659201610173" + "60" + "90" + "5190", // object whose string field is a ref to itself
-		"4d05496e6e6572" + "48016151915a" + "91" + "5a", // typed map registered as a struct whose KEY is a map that contains itself
-		"4d05496e6e6572" + "795191" + "91" + "5a",       // ... whose key is a list that contains itself
+		"71065b696e74333279" + "5191",                     // typed int list whose element is a list containing itself
+		"71055b74726565795191",                            // "[tree" (type Tree []Tree) holding a list that contains itself
+		"4d016a0161480173" + "51915a5a",                   // "j" (type JMap map[string]JMap) holding a map that contains itself
+		"43046e6f64659201610173" + "60" + "90" + "5190",   // object whose string field is a ref to itself
+		"4d05496e6e6572" + "48016151915a" + "91" + "5a",   // typed map registered as a struct whose KEY is a map that contains itself
+		"4d05496e6e6572" + "795191" + "91" + "5a",         // ... whose key is a list that contains itself
 		"4d05496e6e6572" + "0161" + "48016151915a" + "5a", // ... whose value for the field 'a' is a map that contains itself
 		"7a7a5190", "5751905a", "4851905190" + "5a", "7851" + "90", "79795191", "48790151915a",
 		"4a0000000000000000", "4bffffffff", "4400", "5f", "52ffff", "53ffff61", "42ffff", "62ffff00", "33ff", "2f",
@@ -844,6 +861,23 @@ func TestC14(t *testing.T) {
 			}
 		}
 		r.Label("growth: cost at scale 2k vs scale k")
+	}
+	// ---- inputs nested as deep as they are long, through the one-shot and the streaming entry point (shard 0)
+	if shard, _ := shardInfo(); shard == 0 {
+		for di, b := range c14Deep() {
+			for _, j := range []job{{entry: 0, tm: 0, payload: b, origin: "deep"}, {entry: 3, tm: 1, payload: b, origin: "deep"}, {entry: 5, tm: 0, payload: b, origin: "deep"}} {
+				r.Current(fmt.Sprintf("C14 %s %s deep #%d (%d octets, begins %x)", c14Entries[j.entry], c14TypeMaps[j.tm], di, len(b), b[:24]))
+				v, ok := runAlone(j, 60*time.Second)
+				if !ok {
+					c14Fail(t, j, "the call does not return: the worker process died (fatal error: stack overflow / out of memory under a 4 GiB limit) or ran for more than 60 s")
+				} else if msg := judge(j, v); msg != "" {
+					c14Fail(t, j, msg)
+				}
+				r.Eval()
+				r.NonTrivial(av.Hash(fmt.Sprint("deep", di, j.entry, j.tm)))
+			}
+		}
+		r.Label("nesting depth = input length (1 MiB of container tags, 300 000 nested instances)")
 	}
 	// ---- every input of two octets through the one-shot and the streaming entry point (shard 0)
 	if shard, _ := shardInfo(); shard == 0 {
